@@ -65,4 +65,11 @@ CHECKS = {
         "encipher uninterpreted, P/S == digits of pi; scrypt BlockMix/ROMix (N<=8/16) incl. Integerify; HMAC/PBKDF1 vs RFC 2104/2898.",
    note="Trusted: z3; reference transcriptions (validated on published vectors each run); struct model. Outside: SASLprep, whole-run "
         "bcrypt key schedule at real cost, unrolled Blowfish key expansion as a whole, scrypt N>16, hashlib digests."),
+ "C02": dict(engine="E1-zshadow", category="translation_validation", design_ref="DESIGN.md §4 C02",
+   technique="symbolic execution of the real crypt routines with uninterpreted digests + z3 (QF_UFBV) equivalence with specification transcriptions",
+   text="For each (password length, cost) shape the optimised real routine (sha256/sha512-crypt, md5/apr1-crypt, sha1-crypt) and a naive "
+        "transcription of the published algorithm run over symbolic password and salt bytes sharing uninterpreted digests; z3 decides "
+        "that the digests are equal for all contents and that every output symbol is the specification's base-64 group.",
+   note="Trusted: z3; specification transcriptions (validated on published hashes with real digests every run); digest primitives are "
+        "uninterpreted. Outside: lengths/costs not in the grid, OS crypt()/Django oracles, remaining formats (listed in evidence)."),
 }
